@@ -171,12 +171,29 @@ func (m *CacheMon) Step(w *World, _ string) {
 			// a re-fetch after a system reset is an in-flight request too, from the
 			// moment the reset is handled (it may still wait in the reset throttle)
 			refetch := 0
+			registered := map[string]bool{}
 			for _, r := range e.Resources {
+				registered[r.Query] = true
 				if r.Resetting {
 					refetch++
 				}
 			}
-			if int(e.Count) != subs+pend[e.Name]+refetch {
+			// a query resource that lost its last subscriber while its re-fetch is
+			// outstanding is unregistered at once and can no longer be seen in the
+			// entry; its re-fetch still holds its use until it is answered. Such a
+			// re-fetch shows as a pending get for a query that is not registered, or
+			// it still waits in the reset throttle.
+			hidden := 0
+			for _, r := range w.MQ.Pending() {
+				if r.Subject == "get."+e.Name && !registered[parseReq(r.Payload).Query] {
+					hidden++
+				}
+			}
+			for _, t := range w.S.Throttles() {
+				_, _, q := t.VerifState()
+				hidden += q
+			}
+			if d := int(e.Count) - (subs + pend[e.Name] + refetch); d < 0 || d > hidden {
 				w.Fail("C09", "count-mismatch", "cache entry %s: use count %d but %d subscribers + %d requests in flight", name, e.Count, subs, pend[e.Name]+refetch)
 			}
 			// every subscriber the cache lists is a live connection subscription and vice versa
